@@ -21,8 +21,9 @@ fn prs_error_mapping() {
     std::mem::forget(e);
     // ExtraToken
     let o = any_off();
+    let end = any_off();
     let e = parse_error_from_lalrpop(
-        LalrpopError::ExtraToken { token: (TextSize::from(o), Tok::Comma, TextSize::from(o)) },
+        LalrpopError::ExtraToken { token: (TextSize::from(o), Tok::Comma, TextSize::from(end)) },
         "",
     );
     assert!(matches!(e.error, ParseErrorType::ExtraToken(Tok::Comma)) && u32::from(e.offset) == o);
@@ -44,12 +45,23 @@ fn prs_error_mapping() {
     assert!(e.error.is_tab_error() && u32::from(e.offset) == o);
     std::mem::forget(e);
     // UnrecognizedToken: offset = start of the token; an unexpected Indent is an indentation error
+    // (the token's END is an independent symbolic value: the reported offset must be its START)
     let o = any_off();
+    let end = any_off();
     let e = parse_error_from_lalrpop(
-        LalrpopError::UnrecognizedToken { token: (TextSize::from(o), Tok::Indent, TextSize::from(o)), expected: Vec::new() },
+        LalrpopError::UnrecognizedToken { token: (TextSize::from(o), Tok::Indent, TextSize::from(end)), expected: Vec::new() },
         "",
     );
     assert!(matches!(&e.error, ParseErrorType::UnrecognizedToken(Tok::Indent, None)) && u32::from(e.offset) == o);
+    assert!(e.error.is_indentation_error());
+    std::mem::forget(e);
+    let o = any_off();
+    let end = any_off();
+    let e = parse_error_from_lalrpop(
+        LalrpopError::UnrecognizedToken { token: (TextSize::from(o), Tok::Comma, TextSize::from(end)), expected: vec![String::from("Indent")] },
+        "",
+    );
+    assert!(matches!(&e.error, ParseErrorType::UnrecognizedToken(Tok::Comma, Some(x)) if x.len() == 6) && u32::from(e.offset) == o);
     assert!(e.error.is_indentation_error());
     std::mem::forget(e);
     // UnrecognizedEof: "expected an indented block" iff Indent is the only expected token
